@@ -290,6 +290,29 @@ def _input_wrappers(ck, repo):
         want = {"error"} if isnull else {"inner"}
         ck.ob(f"inputs.non_null_coercer table: value is None = {isnull}", got == want, f, f.node, construct=f"nonnull:is_null={isnull}", detail=f"got {sorted(got)}" + atoms.note())
     input_null_wrapper_table(ck, repo)
+    wo = repo.func(INP + "null_coercer.py", "null_coercer_wrapper")
+    r = FuncView(wo).returns()
+    ck.ob("inputs.null_coercer_wrapper returns the wrapper", len(r) == 1 and unparse(r[0].value) == "wrapper", wo, wo.node, construct="nullwrap:return")
+    sc = repo.func(INP + "scalar_coercer.py", "scalar_coercer")
+    sv = FuncView(sc)
+    c = sv.maybe_call("coerce_input")
+    ok = c is not None and [unparse(a) for a in c.args] == [sc.positional_params[2]] and unparse(c.func.value) == sc.positional_params[4]
+    ck.ob("inputs.scalar_coercer delegates to the scalar's coerce_input(value)", ok, sc, c or sc.node, construct="scalar:delegate")
+    rets = sv.returns()
+    good = [x for x in rets if unparse(x.value) == "CoercionResult(value=coerced_value)"]
+    bad = [x for x in rets if unparse(x.value).startswith("CoercionResult(errors=[coercion_error(")]
+    ok = len(good) == 1 and len(bad) == 2 and len(rets) == 3 and any(("is_invalid_value(coerced_value)", "T") in sv.conditions(x) for x in bad) and \
+        any(sv.enclosing(x, (ast.ExceptHandler,)) is not None for x in bad) and ("is_invalid_value(coerced_value)", "T") not in sv.conditions(good[0])
+    ck.ob("inputs.scalar_coercer: valid -> the coerced value; invalid marker or exception -> an error result (never None)", ok, sc, sc.node, construct="scalar:returns")
+    ec = repo.func(INP + "enum_coercer.py", "enum_coercer")
+    ev = FuncView(ec)
+    gvv = ev.maybe_call("get_value")
+    ic = ev.maybe_call("input_coercer")
+    rets = ev.returns()
+    ok = gvv is not None and [unparse(a) for a in gvv.args] == [ec.positional_params[2]] and ic is not None and [unparse(a) for a in ic.args] == [ec.positional_params[0], ec.positional_params[2], ec.positional_params[3]] \
+        and len(rets) == 2 and any(unparse(x.value).startswith("CoercionResult(value=await enum_value.input_coercer(") for x in rets) and \
+        any(unparse(x.value).startswith("CoercionResult(errors=[coercion_error(") and ev.enclosing(x, (ast.ExceptHandler,)) is not None for x in rets)
+    ck.ob("inputs.enum_coercer: looks the value up in the enum, runs the value's own coercer, a miss is an error result", ok, ec, ec.node, construct="enum:returns")
     n_dec = 0
     for rel, name in (("scalar_coercer.py", "scalar_coercer"), ("enum_coercer.py", "enum_coercer"), ("list_coercer.py", "list_coercer"),
                       ("input_object_coercer.py", "input_object_coercer")):
@@ -332,7 +355,8 @@ def _input_wrappers(ck, repo):
         ck.ob("inputs.list_coercer: the list arm returns the coerced items and all item errors", ok, f, lst_ret[0] if lst_ret else f.node, construct="list:return")
         apps = [c for c in fv.calls("append") if unparse(c.func.value) == "coerced_values"]
         exts = [c for c in fv.calls("extend") if unparse(c.func.value) == "errors"]
-        ok = len(apps) == 1 and len(exts) == 1 and fv.guarded(exts[0], lambda t: t == "coerced_errors", "T") and fv.guarded(apps[0], lambda t: t == "coerced_errors", "F")
+        ok = len(apps) == 1 and len(exts) == 1 and set(fv.conditions(exts[0])) >= {("coerced_errors", "T")} and \
+            {("coerced_errors", "F"), ("errors", "F")} <= set(fv.conditions(apps[0])) and unparse(apps[0].args[0]) == "coerced_value" and unparse(exts[0].args[0]) == "coerced_errors"
         ck.ob("inputs.list_coercer: item errors are accumulated, item values kept otherwise", ok, f, apps[0] if apps else f.node, construct="list:accumulate")
 
 
@@ -385,7 +409,14 @@ def _input_object(ck, repo):
         ok = len(st) == 1 and unparse(st[0].targets[0]) == f"coerced_values[{nm}]" and (f"is_invalid_value({rs})", "F") in fv.conditions(st[0])
         ck.ob("inputs.input_object_coercer: an absent optional field is not stored; a present one is stored under its name", ok, f, st[0] if st else lp, construct="object:store")
         ex = [c2 for c2 in fv.calls("extend") if contains(lp, c2)]
-        ck.ob("inputs.input_object_coercer: field errors are accumulated", len(ex) == 1 and unparse(ex[0].func.value) == "errors", f, ex[0] if ex else lp, construct="object:errors")
+        ck.ob("inputs.input_object_coercer: field errors are accumulated", len(ex) == 1 and unparse(ex[0].func.value) == "errors" and ("input_field_errors", "T") in fv.conditions(ex[0])
+              and unparse(ex[0].args[0]) == "input_field_errors", f, ex[0] if ex else lp, construct="object:errors")
+        ck.ob("inputs.input_object_coercer: a field value is kept exactly when neither it nor an earlier field reported errors",
+              len(st) == 1 and {("input_field_errors", "F"), ("errors", "F")} <= set(fv.conditions(st[0])) and unparse(st[0].value) == "input_field_value", f, st[0] if st else lp,
+              construct="object:store-guards")
+        un = [n for n in walk_no_nested(lp) if isinstance(n, ast.Assign) and isinstance(n.targets[0], ast.Tuple)]
+        ck.ob("inputs.input_object_coercer: (value, errors) are unpacked from this field's result", len(un) == 1 and unparse(un[0].targets[0]) == "(input_field_value, input_field_errors)"
+              and unparse(un[0].value) == rs, f, un[0] if un else lp, construct="object:unpack")
     unk = [l for l in loops if unparse(l.iter) == p[2]]
     ok = False
     if len(unk) == 1:
